@@ -32,7 +32,17 @@ def main():
         try:
             ap_ = sh(f'git -C {wt} apply {d / "patch.diff"}')
             if ap_.returncode:
-                print(name, 'patch does not apply to the current HEAD:', ap_.stderr.strip()); continue
+                # the repository moved on (fix: commits): rebase the seeded change by a three-way merge and keep the rebased patch
+                ap3 = sh(f'git -C {wt} apply --3way {d / "patch.diff"}')
+                diff = sh(f'git -C {wt} diff HEAD').stdout
+                if ap3.returncode or '<<<<<<<' in diff or not diff.strip():
+                    print(name, 'patch does not apply to the current HEAD:', ap_.stderr.strip()); continue
+                (d / 'patch.diff').write_text(diff)
+                sh(f'git -C {wt} reset -q')
+                meta['rebased_to'] = sh('git -C /repo rev-parse --short HEAD').stdout.strip()
+                demo = sh(f'MPLBACKEND=Agg /venv/bin/python {d / "demo.py"} {wt}/src')
+                meta['demo_with_change_rc'] = demo.returncode
+                print(name, 'rebased by three-way merge; demonstration with the change exits', demo.returncode)
             env = dict(os.environ, CC_REPO=str(wt), VERIF_SEED='0', VERIF_EVIDENCE_DIR=tempfile.mkdtemp(prefix='seed_ev_'))
             meta['repo_head'] = sh('git -C /repo rev-parse --short HEAD').stdout.strip()
             for p in checks:
